@@ -10,8 +10,8 @@
 
    Second half: the language-neutral "declared structure" ([ev] streams) read off the IDL
    tree ([shape_of_defs]: what the IDL declares) and read off Rust items the way
-   #[derive(DdsType)] reads them ([shape_of_items]: only the FIRST #[dust_dds(..)] attribute
-   of an item counts, dds_derive/src/derive/attributes.rs `.find(..)`).  The property is
+   #[derive(DdsType)] reads them ([shape_of_items]: the arguments of all #[dust_dds(..)]
+   attributes of an item, a later one overwriting, dds_derive/src/derive/attributes.rs).  The property is
    [shape_of_items (gen spec) = shape_of_defs spec]. *)
 From Coq Require Export String Ascii.
 From DustDDS Require Export Base.Machine.
@@ -462,18 +462,20 @@ Definition decl_kind (d : declr) (k : kind) : kind :=
 Definition is_key_arg (a : rarg) : bool := match a with AKey => true | _ => false end.
 Definition is_opt_arg (a : rarg) : bool := match a with AOptional => true | _ => false end.
 Definition is_default_arg (a : rarg) : bool := match a with ADefault => true | _ => false end.
-Fixpoint find_id (l : list rarg) : option cexpr :=
-  match l with [] => None | AId e :: _ => Some e | _ :: r => find_id r end.
-Fixpoint find_ext (l : list rarg) : option string :=
-  match l with [] => None | AExt s :: _ => Some s | _ :: r => find_ext r end.
-Fixpoint find_name (l : list rarg) : option (list string) :=
-  match l with [] => None | AName s :: _ => Some s | _ :: r => find_name r end.
-Fixpoint find_base (l : list rarg) : option rpath :=
-  match l with [] => None | ABase p :: _ => Some p | _ :: r => find_base r end.
-Fixpoint find_switch (l : list rarg) : option rpath :=
-  match l with [] => None | ASwitch p :: _ => Some p | _ :: r => find_switch r end.
-Fixpoint find_bit_bound (l : list rarg) : option cexpr :=
-  match l with [] => None | ABitBound e :: _ => Some e | _ :: r => find_bit_bound r end.
+(* the derive macro visits every argument of every #[dust_dds(..)] attribute in order and assigns:
+   a later `id = ..`, `extensibility = ..`, `name = ..`, `base_type = ..`, `switch(..)`,
+   `bit_bound ..` overwrites an earlier one *)
+Definition pick {A} (sel : rarg -> option A) (l : list rarg) : option A :=
+  fold_left (fun acc a => match sel a with Some x => Some x | None => acc end) l None.
+Definition find_id : list rarg -> option cexpr := pick (fun a => match a with AId e => Some e | _ => None end).
+Definition find_ext : list rarg -> option string := pick (fun a => match a with AExt s => Some s | _ => None end).
+Definition find_name : list rarg -> option (list string) :=
+  pick (fun a => match a with AName s => Some s | _ => None end).
+Definition find_base : list rarg -> option rpath := pick (fun a => match a with ABase p => Some p | _ => None end).
+Definition find_switch : list rarg -> option rpath :=
+  pick (fun a => match a with ASwitch p => Some p | _ => None end).
+Definition find_bit_bound : list rarg -> option cexpr :=
+  pick (fun a => match a with ABitBound e => Some e | _ => None end).
 Definition case_labels (l : list rarg) : list cexpr :=
   flat_map (fun a => match a with ACase e => [e] | _ => [] end) l.
 
@@ -502,7 +504,7 @@ Fixpoint shape_of_def (mods : list string) (d : def) : list ev :=
                (match base with Some (abs, p) => Some (name_kind abs p) | None => None end)
                (flat_map member_shapes ms)]
   | DEnum A n e0 es =>
-      [EEnum n (mods ++ [n]) (hd_opt (flat_map bit_bound_arg A))
+      [EEnum n (mods ++ [n]) (find_bit_bound (map ABitBound (flat_map bit_bound_arg A)))
              (map (fun e => (e_name e, flat_map value_arg (e_annots e))) (e0 :: es))]
   | DUnion n disc c0 cs => [EUnion n (mods ++ [n]) (kind_of_tspec disc) (map case_shape (c0 :: cs))]
   | DTypedef t d0 ds => map (fun d => EAlias (decl_name d) (decl_kind d (kind_of_tspec t))) (d0 :: ds)
@@ -541,11 +543,12 @@ Fixpoint kind_of_rty (depth : nat) (t : rty) : kind :=
   | RRefStr => KStr None
   end.
 
-(* get_*_attributes: `.attrs.iter().find(|a| a.path().is_ident("dust_dds"))` — the first one *)
+(* get_*_attributes (after fix 99bf327): `for a in .attrs.iter().filter(|a| a.path().is_ident("dust_dds"))`
+   — the arguments of ALL #[dust_dds(..)] attributes of the item, in order *)
 Fixpoint view (attrs : list rattr) : list rarg :=
   match attrs with
   | [] => []
-  | RDds args :: _ => args
+  | RDds args :: r => args ++ view r
   | _ :: r => view r
   end.
 
@@ -700,13 +703,8 @@ Definition multi_dim (d : declr) : bool :=
   match d with DArray _ _ (_ :: _) => true | _ => false end.
 (* (class 2 — annotations of a multi-declarator member reaching the first name only — was fixed in
    /repo by 7270bfe and is retired; the class numbers of the others are kept) *)
-(* class 4 — the generator writes two or more separate #[dust_dds(..)] attributes on one item *)
-Definition member_split (m : member) : bool := Nat.ltb 1 (length (rec_args (m_annots m))).
-Definition in_module (mods : list string) : nat := match mods with [] => 0%nat | _ => 1%nat end.
-Definition struct_split (mods : list string) (A : list annot) (base : option (bool * list string)) : bool :=
-  Nat.ltb 1 (length (flat_map ext_arg A) + in_module mods + match base with Some _ => 1 | None => 0 end)%nat.
-Definition enum_split (mods : list string) (A : list annot) : bool :=
-  Nat.ltb 1 (in_module mods + length (flat_map bit_bound_arg A))%nat.
+(* (class 4 — several #[dust_dds(..)] attributes on one item, of which the derive read the first only —
+   was fixed in /repo by 99bf327 and is retired) *)
 
 Fixpoint def_bounded (d : def) : bool :=
   match d with
@@ -724,17 +722,8 @@ Fixpoint def_multi_dim (d : def) : bool :=
   | DUnion _ _ c0 cs => existsb (fun c => multi_dim (uc_decl c)) (c0 :: cs)
   | _ => false
   end.
-Fixpoint def_split (mods : list string) (d : def) : bool :=
-  match d with
-  | DModule n body => existsb (def_split (mods ++ [n])) body
-  | DStruct A _ base ms => struct_split mods A base || existsb member_split ms
-  | DEnum A _ _ _ => enum_split mods A
-  | _ => false
-  end.
-
 Definition known_bounds (defs : list def) : bool := existsb def_bounded defs.
 Definition known_multi_dim (defs : list def) : bool := existsb def_multi_dim defs.
-Definition known_split (defs : list def) : bool := existsb (def_split []) defs.
 
 (* -------------------------------------------- erasures used to attribute a failure *)
 
@@ -747,7 +736,7 @@ Fixpoint kind_erase (eb ed : bool) (k : kind) : kind :=
   | _ => k
   end.
 
-(* eb: forget bounds; ed: keep the first array dimension only; ea: forget what lives in
+(* eb: forget bounds; ed: keep the first array dimension only; ea (no class needs it any more): forget what lives in
    attributes (key, id, optional flag, qualified name, extensibility, base, bit_bound) *)
 Definition ms_erase (eb ed ea : bool) (m : mshape) : mshape :=
   mkMS (ms_name m) (kind_erase eb ed (ms_kind m))
@@ -882,8 +871,9 @@ Definition id_agrees (declared : option cexpr) (observed : string) : bool :=
 
 (* ---- what the derive macro makes of the generated items (dds_derive: type_support.rs,
    attributes.rs): name = `name` argument or the identifier; extensibility defaults to final;
-   key / optional from the FIRST #[dust_dds] attribute of the field; an explicit id is used
-   only for a mutable struct *)
+   key / optional / id from all #[dust_dds] attributes of the field; an explicit id is used
+   for every extensibility (fix 7ee9e78; members without one keep index / next automatic id, which
+   is not predicted) *)
 Record pred_member : Type := mkPM { pm_name : string; pm_id : option cexpr; pm_key : bool; pm_opt : bool }.
 Record pred_struct : Type :=
   mkPS { ps_path : list string; ps_name : list string; ps_ext : string; ps_base : bool; ps_members : list pred_member }.
@@ -895,7 +885,7 @@ Definition derive_struct (mods : list string) (attrs : list rattr) (n : string) 
   let ext := ext_or_final (find_ext v) in
   mkPS (mods ++ [n]) (qname_of v n) ext (opt_some (find_base v))
        (map (fun f => let fv := view (f_attrs f) in
-                      mkPM (f_name f) (if ext =? "mutable" then find_id fv else None)
+                      mkPM (f_name f) (find_id fv)
                            (existsb is_key_arg fv) (existsb is_opt_arg fv)) fs).
 
 Fixpoint derive_structs (mods : list string) (it : ritem) : list pred_struct :=
@@ -949,13 +939,5 @@ Definition is_struct_ev (e : ev) : bool := match e with EStruct _ _ _ _ _ => tru
 Definition descriptions_agree (ra ri : bool) (defs : list def) (obs : list obs_struct) : bool :=
   list_agree (declared_struct_agrees ra ri []) (filter is_struct_ev (shape_of_defs [] defs)) obs.
 
-(* class 5 — an explicit @id on a member of a struct that is not @mutable *)
-Definition member_has_id (m : member) : bool := opt_some (find_id (rec_args (m_annots m))).
-Fixpoint def_id_nonmutable (d : def) : bool :=
-  match d with
-  | DModule _ body => existsb def_id_nonmutable body
-  | DStruct A _ _ ms =>
-      negb (ext_or_final (find_ext (flat_map ext_arg A)) =? "mutable") && existsb member_has_id ms
-  | _ => false
-  end.
-Definition known_id_nonmutable (defs : list def) : bool := existsb def_id_nonmutable defs.
+(* (class 5 — an explicit @id on a member of a struct that is not @mutable was ignored by the derive —
+   was fixed in /repo by 7ee9e78 and is retired; [ri] above is always passed false) *)
